@@ -914,3 +914,9 @@ def run(chk, replay=None):
         import proccheck
         proccheck.run_stage(chk, {"capacity": 6, "all_ok": 1, "mixed": 1}, 70 if chk.tier == "quick" else 1500, [601],
                             name="c05proc")
+    # the 2000-metric limit with scoped keys (machinery of C07: real MetricTable against Metrics.exec and the capacity monitor)
+    from props import c07
+    import random as _random
+    c07.run_table_cases(chk, c07.capacity_cases(_random.Random(chk.seed + 5), 60 if chk.tier == "quick" else 600), "c05tab",
+                        "a metric table at capacity holds more unforced entries than its limit, or its counters disagree with what "
+                        "was offered / refused (scoped and unscoped keys from several transactions)")
